@@ -153,6 +153,7 @@ class ConfigNode(metaclass=ConfigNodeMeta):
     _default_filename = threading.local()
     _default_safe = threading.local()
     _default_priority = STANDARD
+    _metadata_priority = None # priorities of the metadata keys taken from other nodes in merges (a key not listed has the priority of the node)
     _default_delete = False
     _default_allow_new = True
 
@@ -341,7 +342,7 @@ class ConfigNode(metaclass=ConfigNodeMeta):
             if self.ayns.has_priority_over(other):
                 self._replace_other(other, allow_promotions=False)
                 return self
-            other._replace_other(self, allow_promotions=False)
+            other._replace_other(self, allow_promotions=False, other_is_newer=False)
             return other
 
 
@@ -440,12 +441,13 @@ class ConfigNode(metaclass=ConfigNodeMeta):
     # returning the latter. Therefore the final result is equivalent to returning "dict" but with extra elements specific to the "!bind" node.
     #
 
-    def _replace_self(self, other, allow_promotions=False):
+    def _replace_self(self, other, allow_promotions=False, other_is_newer=True):
         ''' Helper that should be called whenever "other" is merged into "self" with higher priority,
             but we want to keep the resulting object inside the memory of "self".
 
             Intuitively speaking, it will try to make "self" look like "other".
         '''
+        self._merge_metadata(other, other_is_newer)
         self._priority = other._priority
         self._delete = other._delete
         if other._safe is not None:
@@ -453,7 +455,6 @@ class ConfigNode(metaclass=ConfigNodeMeta):
         if other._default_safe is not None:
             self._default_safe = notnone_or(self._default_safe, True) and other._default_safe
         self._inherit_unsafety(other)
-        self._metadata = { **self._metadata, **other._metadata }
         if allow_promotions:
             ret = self._maybe_promote(other)
         else:
@@ -461,7 +462,7 @@ class ConfigNode(metaclass=ConfigNodeMeta):
         ret._propagate_implicit_values()
         return ret
 
-    def _replace_other(self, other, allow_promotions=False):
+    def _replace_other(self, other, allow_promotions=False, other_is_newer=True):
         ''' Helper that should be called whenever "other" is merged into "self" with lower priority,
             and we want to keep "self" as the resulting node (subject to promotions).
 
@@ -477,13 +478,30 @@ class ConfigNode(metaclass=ConfigNodeMeta):
         if other._default_safe is not None:
             self._default_safe = notnone_or(self._default_safe, True) and other._default_safe
         self._inherit_unsafety(other)
-        self._metadata = { **other._metadata, **self._metadata }
+        self._merge_metadata(other, other_is_newer)
         if allow_promotions:
             ret = self._maybe_promote(other)
         else:
             ret = self
         ret._propagate_implicit_values() # (the safety of the node might have changed)
         return ret
+
+    def _merge_metadata(self, other, other_is_newer):
+        ''' Combines user metadata of "self" and "other" key by key, under the same rule as values:
+            a key's value comes from its writer with the highest priority, from the later one among equals.
+            (The node which wins the merge is not necessarily the winner for every key: it might not have the key
+            at all, and only hold it on behalf of an earlier, weaker node it has absorbed.)
+        '''
+        mine = { key: (self._metadata_priority or {}).get(key, self.ayns.priority) for key in self._metadata }
+        theirs = { key: (other._metadata_priority or {}).get(key, other.ayns.priority) for key in other._metadata }
+        metadata = dict(self._metadata)
+        for key, value in other._metadata.items():
+            if key not in metadata or theirs[key] > mine[key] or (theirs[key] == mine[key] and other_is_newer):
+                metadata[key] = value
+                mine[key] = theirs[key]
+
+        self._metadata = metadata
+        self._metadata_priority = mine
 
     def _inherit_unsafety(self, other):
         ''' "other" might be unsafe only because of where it was written (below an !unsafe node,
